@@ -241,6 +241,23 @@ static void run_api(const std::vector<std::string> &f) {
                     r += t;
                 }
             }
+            else if (op == "gat" && a.size() >= 2) {
+                // the glyph attributes as the face read them from Gloc / Glat (C01 correspondence with Model/GlatModel.v):
+                // R = read_glyph returned 0 (the lookup falls back to glyph 0), otherwise the non-zero attributes below min(numAttrs, 48)
+                const graphite2::GlyphCache &gc = static_cast<const graphite2::Face *>(face)->glyphs();
+                r = "gat=" + std::to_string(gc.numAttrs()) + "," + std::to_string(gc.numGlyphs());
+                std::istringstream is(a[1]); std::string x;
+                const graphite2::GlyphFace *g0 = gc.glyph(0);
+                while (std::getline(is, x, ',')) {
+                    unsigned gid = (unsigned)strtoul(x.c_str(), 0, 10);
+                    if (gid >= gc.numGlyphs()) { r += " -"; continue; }
+                    const graphite2::GlyphFace *g = gc.glyph((unsigned short)gid);
+                    if (!g || (gid != 0 && g == g0)) { r += " R"; continue; }
+                    std::string vs;
+                    for (unsigned k = 0; k < gc.numAttrs() && k < 48; k++) { unsigned v = g->attrs()[(unsigned short)k]; if (v) vs += (vs.empty() ? "" : ",") + std::to_string(k) + "=" + std::to_string(v); }
+                    r += " " + (vs.empty() ? std::string("0") : vs);
+                }
+            }
             else if (op == "just" && a.size() >= 3) { int sl = atoi(a[1].c_str()); if (segs.count(sl) && gr_seg_first_slot(segs[sl])) { float w = gr_seg_justify(segs[sl], gr_seg_first_slot(segs[sl]), segfont[sl], atof(a[2].c_str()), gr_justCompleteLine, 0, 0); r = "just=" + fnum(w); } else r = "none"; }
             else if (op == "break" && a.size() >= 3) {
                 int sl = atoi(a[1].c_str());
